@@ -338,3 +338,54 @@ Proof. repeat split; reflexivity. Qed.
 
 Print Assumptions C17_sprintf_index.
 Print Assumptions C17_sprintf_reports.
+
+(* ================================================================================================
+   Phase 5: Message.String, the bounds guard of its slice, totality of the translated renderers
+   ================================================================================================ *)
+(* Message.String: the format builder (the four flag tests in order, the colour looked up in the TRANSLATED colors
+   table), the `format.Len() > 0` guard and the [:format.Len()-1] slice (a panic outcome when the builder is empty),
+   text, translate with its arguments, extra, the closing reset - the writes to the builder in statement order
+   are the model's ANSI renderer, for every component and table *)
+Theorem C17_string_skeleton : forall tbl m,
+  option_map rconcat
+    (as_run tbl (ansi_string tbl) (snd chat_Message_String) m {| a_fmt := []; a_text := None; a_pieces := [] |})
+  = Some (ansi_string tbl m).
+Proof. exact ansi_string_is_skel. Qed.
+(* the index / slice expressions of ClearString, String and TransCtrlSeq with their enclosing conditions are the
+   recorded ones; String has exactly one slice, of the whole builder, inside a guard under which its high bound
+   lies in 0 .. len; every other site is a map lookup, an index inside a range over the indexed operand, or
+   str[2] inside the callback of a three-byte match *)
+Theorem C17_render_sites_recorded : chat_render_sites = expected_render_sites.
+Proof. exact render_sites_skel_ok. Qed.
+From Coq Require Import String.
+Theorem C17_string_slice_guarded :
+  exists st, string_slices = [st] /\ st_x st = "format.String()"%string /\ st_lo st = ""%string /\ st_guards st <> []
+    /\ forall len, (0 <= len)%Z ->
+         forallb (fun g => match guard_len g len with Some b => b | None => false end) (st_guards st) = true ->
+         exists hi, hi_len (st_hi st) len = Some hi /\ (0 <= hi <= len)%Z.
+Proof. exact string_slice_guarded. Qed.
+Theorem C17_render_sites_classified :
+  forallb (fun s => match site_class s with Some _ => true | None => false end) chat_render_sites = true.
+Proof. exact render_sites_classified. Qed.
+(* rendering never panics, for the TRANSLATED bodies: their interpretation is defined and is not a panic, for
+   every component and every translation table *)
+Theorem C17_render_total_translated : forall tbl m,
+  option_map rconcat
+    (as_run tbl (ansi_string tbl) (snd chat_Message_String) m {| a_fmt := []; a_text := None; a_pieces := [] |})
+  <> Some RCrash
+  /\ option_map rconcat
+       (cs_run tbl (clear_string tbl) (snd chat_Message_ClearString) m {| c_text := None; c_pieces := [] |})
+     <> Some RCrash
+  /\ option_map rconcat
+       (as_run tbl (ansi_string tbl) (snd chat_Message_String) m {| a_fmt := []; a_text := None; a_pieces := [] |})
+     <> None
+  /\ option_map rconcat
+       (cs_run tbl (clear_string tbl) (snd chat_Message_ClearString) m {| c_text := None; c_pieces := [] |})
+     <> None.
+Proof. exact render_total_translated. Qed.
+
+Print Assumptions C17_string_skeleton.
+Print Assumptions C17_render_sites_recorded.
+Print Assumptions C17_string_slice_guarded.
+Print Assumptions C17_render_sites_classified.
+Print Assumptions C17_render_total_translated.
